@@ -1750,7 +1750,9 @@ def fstr_(x: F) -> str:
     return ptgen.fstr(x)
 
 
-EMPTY_PARTS = ('const', 'table', 'func', 'rep0', 'for0', 'seq-of-empties', 'amulti')
+# (no FunctionPT: with duration 0 it does not play nothing -- `build_waveform` returns a zero length FunctionWaveform, which
+#  ends up as a zero length leaf in the program; such programs are outside what `play_samples` can address)
+EMPTY_PARTS = ('const', 'table', 'point', 'rep0', 'for0', 'seq-of-empties', 'amulti')
 CARRIERS = ('rep', 'rep', 'rep-seq', 'rep-rep', 'rep-map', 'seq', 'for')
 CONTEXTS = ('before', 'after', 'between', 'alone', 'in-rep', 'in-for', 'two-carriers')
 
@@ -1776,8 +1778,9 @@ def _empty_part_spec(ekind: str, ckind: str, xkind: str, two: bool) -> dict:
     elif ekind == 'table':
         e = {'k': 'table', 'entries': [[c, [['0', v, 'hold'], ['z', v, 'hold']]] for c, v in amps('0.125')], 'meas': [],
              'cons': [], 'id': 'e'}
-    elif ekind == 'func' and not two:
-        e = {'k': 'func', 'ch': 'A', 'dur': 'z', 'expr': '0.125 + t', 'meas': [], 'cons': [], 'id': 'e'}
+    elif ekind == 'point':
+        e = {'k': 'point', 'chans': ['A', 'B'] if two else ['A'], 'entries': [['0', '0.125', 'hold'], ['z', '0.375', 'linear']],
+             'meas': [], 'cons': [], 'id': 'e'}
     elif ekind == 'rep0':
         e = {'k': 'rep', 'body': const('0.5', '0.125'), 'count': 'k', 'meas': [['V', '0', '0.25']], 'cons': [], 'id': 'e'}
     elif ekind == 'for0':
@@ -1843,7 +1846,7 @@ def _empty_part_descs(ctx, n):
     composite that plays nothing contributes no window under any option set (judge: denote)."""
     rng = ctx.fork('empty-parts')
     space = [(e, c, x, two) for e in EMPTY_PARTS for c in sorted(set(CARRIERS)) for x in CONTEXTS for two in (False, True)
-             if not (two and e == 'func')]
+             ]
     ctx.exhaustive_spaces.append('composites with own measurement windows around a body that is empty at the parameters: %d '
                                  'empty parts x %d carriers x %d contexts x 1-2 channels = %d trees (quick: %d of them), each '
                                  'with z = 0 / k = 0 and, for one in four, with a playing body as control'
